@@ -50,6 +50,13 @@ fn main() {
             let mut ex = d5::Exec::new();
             run("d5g", &d5gen::gen_geometry, &mut |l, o| ex.line(l, o))
         }
+        Some("d5r") => { let mut ex = d5::Exec::new(); run("d5r", &d5gen::gen_reboot, &mut |l, o| ex.line(l, o)) }
+        Some("d5c") => { let mut ex = d5::Exec::new(); run("d5c", &d5gen::gen_crash_resume, &mut |l, o| ex.line(l, o)) }
+        Some("d5f") => { let mut ex = d5::Exec::new(); run("d5f", &d5gen::gen_flash_faults, &mut |l, o| ex.line(l, o)) }
+        Some("d5fr") => { let mut ex = d5::Exec::new(); run("d5fr", &d5gen::gen_flash_faults_reads, &mut |l, o| ex.line(l, o)) }
+        Some("d5m") => { let mut ex = d5::Exec::new(); run("d5m", &d5gen::gen_malformed, &mut |l, o| ex.line(l, o)) }
+        Some("d5w") => { let mut ex = d5::Exec::new(); run("d5w", &d5gen::gen_crash_sweep, &mut |l, o| ex.line(l, o)) }
+        Some("d6") => { let mut ex = d5::Exec::new(); run("d6", &d5gen::gen_ring, &mut |l, o| ex.line(l, o)) }
         Some("d1f") => {
             let mut ex = d1::Exec::new();
             run("d1f", &d1::gen_faults, &mut |l, o| ex.line(l, o))
